@@ -199,7 +199,14 @@ fn c02(quick: bool) -> Vec<Harness> {
     cfg.max_ops = 2;
     cfg.max_items = 3;
     cfg.pool = (4, 8);
-    v.push(ops_harness("multishot+single", "C02", cfg, bounds(d(9, 11), d(2, 3), 4)));
+    v.push(ops_harness("multishot+single", "C02", cfg.clone(), bounds(d(9, 11), d(2, 3), 4)));
+    // The same with interruptions / cancellations by the kernel as the terminating completion: results
+    // queued ahead of it are still the stream's.
+    cfg.faults = true;
+    cfg.errors = false;
+    cfg.kinds = vec![];
+    cfg.max_ops = 1;
+    v.push(ops_harness("multishot-interrupted", "C02", cfg, bounds(d(9, 11), d(2, 3), 4)));
 
     let mut cfg = Cfg::base("C02");
     cfg.preset = vec![Kind::SendZc];
